@@ -116,7 +116,7 @@ m = {
                  'kind_free_text': 'Coq 8.16 development (coq/theories) + syn translator (harness/xlate) + Python driver (harness/bbv)'}],
     'checks': checks,
     'notes': ('Genuine defects of the unchanged tree were repaired by minimal unguarded commits in /repo whose messages start with "fix:" '
-              '(3601d6d, 210890d, 3d0e16d, 6d84f06, f1e1d2e); each is recorded as a "fixed:" line in /verif/known-findings.txt with the '
+              '(3601d6d, 210890d, 3d0e16d, 6d84f06, f1e1d2e, fe86bfd); each is recorded as a "fixed:" line in /verif/known-findings.txt with the '
               'failing declaration; there is no open "known:" finding, so no check prints KNOWN-FINDING. The hook commit is 8106812 (cargo '
               'feature verif_hooks, off by default). Seeded changes used to test the checks are under /verif/seeded (never applied to /repo). '
               'Design, trusted base and the per-property argument: /verif/DESIGN.md.'),
